@@ -7,6 +7,7 @@ import Driver.OpsUpdate
 import Driver.OpsNewMap
 import Driver.OpsXml
 import Driver.OpsEnc
+import Driver.OpsSeq
 namespace Mxj.Drv
 
 def dispatch (op : String) (args : List String) : Out :=
@@ -32,6 +33,7 @@ def dispatch (op : String) (args : List String) : Out :=
   | "cast" => runP opCast args
   | "xenc" => runP opXenc args
   | "xrt" => runP opXrt args
+  | "xseq" => runP opXseq args
   | "implonly" => "na"
   | _ => "bad-op"
 
